@@ -2,6 +2,7 @@ import Driver.Proto
 import Model.Errs
 import Model.ErrsFmt
 import Model.ErrsTrace
+import Model.ErrsWalk
 open Proto Errs
 
 /-- driver state: the heap, the table of named error values, the counter that stands for pointer identity of
@@ -14,6 +15,9 @@ structure St where
       pairs share one identity -/
   valueErrs : List (String × String) := []
   cloned : Bool := false   -- CloneWithPrefixMessage shares the rest of a chain: links then need not point forward
+  /-- identities of the foreign errors whose dynamic type is not comparable (slice, map, func kinds): `errors.Is` never
+      compares against them -/
+  uncmp : List Nat := []
 
 def St.heap (s : St) : Heap := s.fh.h
 
@@ -74,8 +78,46 @@ def rendering (s : St) : Val → String
       hexOfStr (fmtV s.heap s.fh.T id)
   | _ => ""
 
+/-- is `==` defined for the dynamic type of the value? -/
+def St.cmp (s : St) : Val → Bool
+  | .plain uid _ => !s.uncmp.contains uid
+  | _ => true
+
+def walkText : Walk → String
+  | .found => "1"
+  | .notFound => "0"
+  | .panics => "panic"
+
 def exec (s : St) (k : Nat) (op : String) (args : List String) : St × String :=
   match op, args with
+  | "is", [a, b] =>   -- errors.Is(a, b); typed nils of foreign types are one notion in the model: not compared as targets
+    match varIx? a, varIx? b with
+    | some a, some b =>
+      let r := assign s k s.heap (s.get a)
+      (r.1, r.2 ++ " IS:" ++ (if s.get b == .foreignNil then "skip" else walkText (errorsIs s.heap s.cmp (s.get a) (s.get b))))
+    | _, _ => (s, "bad-op")
+  | "as", [a] =>
+    match varIx? a with
+    | some a => assign s k s.heap (asTarget (s.get a))
+    | none => (s, "bad-op")
+  | "recover", [mode, x, rmsg] =>
+    let pv : Option PanicVal :=
+      if mode == "str" then (strOfHex? x).map PanicVal.str
+      else if mode == "none" then some .none
+      else (varIx? x).map (fun a => if s.get a == .nilIface then PanicVal.none else .err (s.get a))
+    match pv, strOfHex? rmsg with
+    | some pv, some rmsg =>
+      let r := recoveryF s.fh 8 rmsg pv (mode != "nohandler")
+      let o := assignF s k (r.1, r.2.getD .nilIface)
+      (o.1, o.2 ++ " RC:" ++ (if r.2.isSome then "1" else "0"))
+    | _, _ => (s, "bad-op")
+  | "log", [a, _] =>
+    match varIx? a with
+    | some a =>
+      let r := logRecordF s.fh 9 (s.get a)
+      let o := assignF s k (r.1, r.2.2.getD .nilIface)
+      (o.1, o.2 ++ " L:" ++ hexOfStr r.2.1)
+    | none => (s, "bad-op")
   | "nil", [] => assign s k s.heap .nilIface
   | "tnil", [] => assign s k s.heap .typedNil
   | "fnil", [] => assign s k s.heap .foreignNil
@@ -92,8 +134,10 @@ def exec (s : St) (k : Nat) (op : String) (args : List String) : St × String :=
         match s.valueErrs.findIdx? (fun p => p == (kind, m)) with
         | some i => assign s k s.heap (.plain (1000000 + i) m)
         | none => assign { s with valueErrs := s.valueErrs ++ [(kind, m)] } k s.heap (.plain (1000000 + s.valueErrs.length) m)
-      else if kind == "slice" || kind == "slice0" || kind == "map" || kind == "func" || kind == "chan" then
+      else if kind == "chan" then
         assign { s with uid := s.uid + 1 } k s.heap (.plain s.uid m)
+      else if kind == "slice" || kind == "slice0" || kind == "map" || kind == "func" then
+        assign { s with uid := s.uid + 1, uncmp := s.uid :: s.uncmp } k s.heap (.plain s.uid m)
       else (s, "bad-op")
     | none => (s, "bad-op")
   | "new", [m] | "newf", [m] =>
@@ -145,7 +189,7 @@ def exec (s : St) (k : Nat) (op : String) (args : List String) : St × String :=
 
 /-! ### area `trace`: the whole text of `Detail(trim)` over real frames (stateless lines)
 
-`trace <trim> P<prefix,…> <extra> <level>…` — every level is `ctor:probe:depth:msg:lib:site`: one constructor call whose
+`trace <trim> P<prefix,…> <extra> B<buffer> R<recovery message> <level>…` — every level is `ctor:probe:depth:msg:lib:site`: one constructor call whose
 argument is the value built by the level before it; `site` are the frames `runtime.Callers` saw on the source line of the
 call (innermost first), `lib` the library's own frames above it; the harness ignores both lists and repeats the calls. -/
 
@@ -177,17 +221,21 @@ def TSt.adopt (t : TSt) (r : Heap × Val) (fs : List Frame) : TSt :=
   { t with h := r.1, cur := r.2,
            F := if extra = 0 then t.F else t.F ++ (fs :: List.replicate (extra - 1) []).toArray }
 
-def traceLevel (t : TSt) (w : String) : Option TSt :=
+def traceLevel (buf : Nat) (rmsg : String) (t : TSt) (w : String) : Option TSt :=
   match w.splitOn ":" with
   | [ctor, _, _, m, lib, site] =>
     match strOfHex? m, parseFrames lib, parseFrames site with
     | some m, some lib, some site =>
-      let fs := recordStack lib site
+      let fs := recordStack buf lib site
       match ctor with
       | "new" | "newf" => some (t.adopt (new t.h m) fs)
       | "cause" | "causef" => some (t.adopt (newWithCause t.h m t.cur) fs)
       | "wrap" => some (t.adopt (wrap t.h t.cur) fs)
       | "wraptyped" => some (t.adopt (wrapTyped t.h t.cur) fs)
+      | "recover" =>   -- panic(cur) under Recovery: one new error caused by the panic value (no panic for a nil interface)
+        match recovery t.h rmsg (if t.cur == .nilIface then .none else .err t.cur) true with
+        | (h', some v) => some (t.adopt (h', v) fs)
+        | (_, none) => some { t with cur := .nilIface }
       | "plain" => some { t with cur := .plain t.uid m, uid := t.uid + 1 }
       | "fwrap" => some { t with cur := .fwrap t.uid m t.cur, uid := t.uid + 1 }
       | "nil" => some { t with cur := .nilIface }
@@ -209,8 +257,13 @@ def traceLevel (t : TSt) (w : String) : Option TSt :=
     | _, _, _ => none
   | _ => none
 
-def traceLine (trim pfx extra : String) (levels : List String) : String :=
-  match parsePrefixes pfx, extra.toNat?, levels.foldlM traceLevel ({} : TSt) with
+def parseBuf (w : String) : Option Nat := if w.startsWith "B" then (w.drop 1).toNat? else none
+
+def parseRmsg (w : String) : Option String := if w.startsWith "R" then strOfHex? (w.drop 1).toString else none
+
+def traceLine (trim pfx extra buf rmsg : String) (levels : List String) : String :=
+  match parsePrefixes pfx, extra.toNat?,
+    (parseBuf buf).bind (fun b => (parseRmsg rmsg).bind (fun r => levels.foldlM (traceLevel b r) ({} : TSt))) with
   | some P, some n, some t =>
     match t.cur with
     | .ref id =>
@@ -229,7 +282,7 @@ def traceLine (trim pfx extra : String) (levels : List String) : String :=
 def step (s : St) (line : String) : St × String :=
   match words line with
   | ["reset"] => ({}, "reset")
-  | "trace" :: trim :: pfx :: extra :: levels => (s, traceLine trim pfx extra levels)
+  | "trace" :: trim :: pfx :: extra :: buf :: rmsg :: levels => (s, traceLine trim pfx extra buf rmsg levels)
   | v :: "=" :: op :: args =>
     match varIx? v with
     | some k => exec s k op args
